@@ -106,7 +106,9 @@ fn process() -> Result<(), String> {
         OutputTo::Stdout => {
             use std::io::Write;
             let buf = img.encode_png().map_err(|e| e.to_string())?;
-            std::io::stdout().write_all(&buf).unwrap();
+            std::io::stdout()
+                .write_all(&buf)
+                .map_err(|e| e.to_string())?;
         }
         OutputTo::File(ref file) => {
             timed(args.perf, "Saving", || {
